@@ -24,7 +24,8 @@ DEFAULT_FEED_KNOBS = dict(
     p_provider_err=0.2,
     p_zero_version=0.03,
     late_state_p=0.15,
-    foreign_new_state_p=0.1,  # a foreign unit may belong to a state that is not part of the election at all  # polls close later in one state: all its units report in the last fifth of the night  # an early version that carries an expected-vote percentage but no tabulated votes yet
+    foreign_new_state_p=0.1,
+    p_flap=0.0,  # the provider flaps: after version k it re-publishes version k-1 and then version k again  # a foreign unit may belong to a state that is not part of the election at all  # polls close later in one state: all its units report in the last fifth of the night  # an early version that carries an expected-vote percentage but no tabulated votes yet
     surge_frac=0.0,
     boundary_frac=0.0,
     poll_every=(30.0, 120.0),
@@ -119,6 +120,7 @@ def unit_versions(rng, truth_row, baseline_row, k, threshold=100, tf_limits=(0.5
 
 
 def feed_row(baseline_row, v):
+    v = {k_: x for k_, x in v.items() if not k_.startswith("_")}
     return dict(
         postal_code=baseline_row["postal_code"],
         geographic_unit_fips=baseline_row["geographic_unit_fips"],
@@ -163,7 +165,7 @@ def foreign_unit(rng, world, serial, new_state_p=0.0):
             known_county = False
     else:
         fips = f"{d}_{county}_x{serial:02d}"
-    turnout = int(rng.integers(0, 4000))
+    turnout = int(rng.integers(0, 4000)) if not chance(rng, 0.15) else 0  # listed by the provider, nothing tabulated yet
     dem = int(rng.integers(0, turnout + 1))
     gop = int(rng.integers(0, turnout - dem + 1))
     pev = choice(rng, [0, 37, 99, 100, 100, 112])
@@ -199,6 +201,7 @@ def schedule_night(streams, world, feed_knobs=None, threshold=100, tf_limits=(0.
     stats = dict(released=0, delivered=0, lost=0, dup=0, overtaken=0, rescaled=0, foreign=0, kinds={})
     base_by = {r["geographic_unit_fips"]: r for r in world["baseline"]}
     # unit processes
+    flap_prev = {}
     late_state = None
     if len(world["states"]) > 1 and chance(streams.sched, k.get("late_state_p", 0.0)):
         late_state = choice(streams.sched, world["states"])
@@ -209,6 +212,7 @@ def schedule_night(streams, world, feed_knobs=None, threshold=100, tf_limits=(0.
             for v in vs:
                 v["t"] = k["horizon"] * 0.82 + v["t"] * 0.18
         stats["kinds"][kind] = stats["kinds"].get(kind, 0) + 1
+        flap_prev[fips] = [(i, v) for i, v in enumerate(vs)]
         for i, v in enumerate(vs):
             push(v["t"], ("release", fips, i, v))
     n_foreign = int(feed.integers(k["n_foreign"][0], k["n_foreign"][1] + 1))
@@ -258,6 +262,12 @@ def schedule_night(streams, world, feed_knobs=None, threshold=100, tf_limits=(0.
                 stats["overtaken"] += 1
             latest_delivered_version[fips] = i
             ops.append(dict(t=round(now, 3), k="deliver", u=fips, ver=i, row=feed_row(base_by[fips], v)))
+            if i >= 1 and chance(feed, k.get("p_flap", 0.0)) and ev[0] == "deliver" and not v.get("_flapped"):
+                prev = next((e for e in flap_prev.get(fips, []) if e[0] == i - 1), None)
+                if prev is not None:
+                    push(now + 1.0, ("deliver", fips, i - 1, dict(prev[1], _flapped=True)))
+                    push(now + 2.0, ("deliver", fips, i, dict(v, _flapped=True)))
+                    stats["flapped"] = stats.get("flapped", 0) + 1
             if chance(feed, k["p_rescale"]):
                 new_pev = int(max(0, min(100, round(v["pev"] * float(feed.uniform(0.7, 1.3))))))
                 push(now + float(feed.exponential(20.0)), ("rescale", fips, new_pev))
